@@ -938,6 +938,20 @@ def gen_access(repo):
     G.define('gen_mmbase_masked_inline_accesses', '(W M K N i j k n : nat)', 'list (nat * nat)',
              acc(MK, r'void\s+_matmul_base_masked\s*\(const[^)]*\)\s*\{', 0, ['a', 'b', 'c'], envd, consts=True),
              MK + ': _matmul_base_masked: a / b / c accesses of the inline code')
+    # ---- is_aligned() of every view class: whether loads / stores through the view may be alignment-requiring
+    def aligned_fn():
+        import glob
+        items = []
+        files = sorted(glob.glob(os.path.join(repo, 'Fastor', 'expressions', 'views', '*.h')))
+        for f in files:
+            txt = strip_comments(open(f).read())
+            for m in re.finditer(r'static\s+constexpr\s+FASTOR_INLINE\s+bool\s+is_aligned\s*\(\s*\)\s*\{\s*return\s+([^;]+);', txt):
+                t, so = translate(m.group(1), 'nat', {}, ())
+                if so != 'b': raise XErr('is_aligned of %s is not boolean' % os.path.basename(f))
+                items.append(t)
+        if len(items) != 16: raise XErr('%d is_aligned() definitions in expressions/views (16 expected)' % len(items))
+        return '[' + '; '.join(items) + ']'
+    G.define('gen_views_is_aligned', '', 'list bool', aligned_fn, 'expressions/views/*.h: the value of is_aligned() of every view class, in file / source order')
     # ---- tensor/AbstractTensorFunctions.h: reductions and predicates (the overloads that do not evaluate their argument first)
     AF = 'tensor/AbstractTensorFunctions.h'
     def red(name):
